@@ -1,11 +1,18 @@
 #!/bin/bash
 # re-runs every archived seeded change: applies seeded/<name>/patch.diff to /repo, runs the check(s) of the property it breaks (quick tier),
-# expects exit 1 with a VIOLATION line, restores /repo.  usage: seedcheck.sh [name-glob]
+# expects exit 1 with a VIOLATION line (exit 0 for the changes documented as NOT CAUGHT in their meta.json), restores /repo.
+# usage: seedcheck.sh [name-glob]     prints one line per change and a final tally; "UNEXPECTED" marks a regression
 cd /verif
+bad=0; tot=0
 for d in seeded/${1:-*}/; do
   n=$(basename $d); p=$(python3 -c "import json;print(json.load(open('$d/meta.json'))['breaks_property'])")
-  git -C /repo apply /verif/$d/patch.diff || { echo "$n: patch does not apply"; continue; }
-  out=$(./check $p --tier quick 2>&1); rc=$?
+  exp=$(python3 -c "import json;m=json.load(open('$d/meta.json'));print(0 if m['confirmed_by_me']['checks_run_with_patch_applied_to_repo'].startswith('NOT CAUGHT') else 1)")
+  # a change may be caught by a neighbouring property's check (e.g. C18 changes by the harness of C05): use the first check named in the meta data
+  c=$(python3 -c "import json,re;m=json.load(open('$d/meta.json'));s=m['confirmed_by_me']['checks_run_with_patch_applied_to_repo'];r=re.findall(r'C\d\d',s);print(r[0] if r and not s.startswith('NOT') else m['breaks_property'])")
+  git -C /repo apply /verif/$d/patch.diff || { echo "$n: patch does not apply"; bad=$((bad+1)); continue; }
+  out=$(timeout ${CHECK_TMO:-1500} ./check $c --tier quick 2>&1); rc=$?
   git -C /repo checkout -- .
-  echo "$n property=$p rc=$rc violations=$(echo "$out" | grep -c '^VIOLATION') $(echo "$out" | tail -1 | cut -c1-120)"
+  tot=$((tot+1)); tag=""; [ $rc -ne $exp ] && { tag="UNEXPECTED(expected rc=$exp)"; bad=$((bad+1)); }
+  echo "$n property=$p check=$c rc=$rc violations=$(echo "$out" | grep -c '^VIOLATION') $tag $(echo "$out" | tail -1 | cut -c1-110)"
 done
+echo "SEEDCHECK total=$tot unexpected=$bad"
